@@ -320,6 +320,9 @@ func c03(r *Report, s *Sem) {
 		fresh, why := true, ""
 		n := 0
 		for _, l := range leaves(ses) {
+			if isNilConst(stripConv(l)) {
+				continue // no envelope at all (the error path of a helper): nothing that could be mistaken for a reply
+			}
 			call, idx := callOf(l)
 			if call == nil || idx != 0 {
 				fresh, why = false, "session value may come from "+describe(l)
